@@ -1192,11 +1192,10 @@ func (ps *PushContext) doGetSidecarScope(proxy *Proxy, workloadLabels labels.Ins
 		ps.sidecarIndex.derivedSidecarMutex.Lock()
 		defer ps.sidecarIndex.derivedSidecarMutex.Unlock()
 
-		// Gateways always use default sidecar scope.
-		if sc, f := ps.sidecarIndex.defaultSidecarsByNamespace[proxy.ConfigNamespace]; f {
-			return sc
-		}
-
+		// Gateways always use the default scope computed for gateways. They must not pick up the default scope of the
+		// namespace's sidecars (defaultSidecarsByNamespace) when one happens to be there: that one is computed lazily,
+		// only once a sidecar of the namespace has asked for it, and it resolves a hostname defined in several namespaces
+		// differently - the configuration of a gateway would depend on which proxies were served before it.
 		if sc, f := ps.sidecarIndex.sidecarsForGatewayByNamespace[proxy.ConfigNamespace]; f {
 			return sc
 		}
